@@ -224,3 +224,18 @@ def run(chk, replay):
     # the working directory changes between conversions of checkpoints typed under a relative name (PoolEnv.tla)
     from harness import poolenv
     poolenv.tool_phase(chk, "chk2plt")
+    # chk2plt with GENUINE process pools in a child process: as they come, with a slow task-handler thread, and with workers started
+    # by 'spawn' (StartMethod.tla) -- with the default options and with every option away from its default; the plotfile written
+    # must be the one of the in-process reference run, which the replays above judge against the checkpoint
+    from checks import c12
+    D = c12.drivers()
+    n_, seed_ = 2, chk.seed * 10 + 2
+    paths = c12.make_inputs(chk, n_, seed_)
+    refs = {}
+    for name in ("chk2plt", "chk2plt.options"):
+        ref = c12.run_tool(chk, name, D[name][0], paths, {}, default="fifo")
+        if "exc" in ref:
+            chk.violation(util.sig_str(name, n_, "reference"), "%s raised in the reference run: %s" % (name, ref["exc"]), {"real_pool": True})
+        else:
+            refs[(name, n_)] = (ref, seed_)
+    c12.real_pool_phase(chk, D, [nm for nm, _ in refs], refs)
